@@ -120,14 +120,18 @@ func (t *mixedTable) next(k Value) (next Value, v Value, ok bool) {
 		i, isInt = ToIntNoString(k)
 	}
 	if isInt {
-		j, v, ok := t.array.next(i)
-		if ok {
-			if j > 0 {
-				return IntValue(j), v, true
+		// The array is traversed from 0 only when k is nil: the key 0 itself
+		// lives in the hash table.
+		if i != 0 || k.IsNil() {
+			j, v, ok := t.array.next(i)
+			if ok {
+				if j > 0 {
+					return IntValue(j), v, true
+				}
+				// In this case we have run out of values in the array, so start the
+				// hash table.
+				return t.hashTable.next(NilValue)
 			}
-			// In this case we have run out of values in the array, so start the
-			// hash table.
-			return t.hashTable.next(NilValue)
 		}
 		k = IntValue(i)
 	}
